@@ -35,6 +35,12 @@ Proof.
   destruct (maintain_cur (fst (pfinal (c, part_new c t0) ops)) now (snd (pfinal (c, part_new c t0) ops))) as [A B]. unfold abase. rewrite A, B. reflexivity.
 Qed.
 
+(* whatever survives a whole maintenance pass (expiry phase and size phase) is an untouched segment of the partition, or the fresh
+   empty segment that replaces a partition emptied completely - in EVERY state *)
+Theorem C14_pass_survivors_untouched : forall c now p s,
+  In s (p_segs (maintain c now p)) -> In s (p_segs p) \/ exists st nw, s = seg_new st nw.
+Proof. exact maintain_survivors. Qed.
+
 (* PROVED, history level, EXPIRY-BASED AND SIZE-BASED retention together (every operation list; a message expiry may be configured
    and changed at will; maintenance passes at arbitrary times; side conditions: segment size > 0, offsets < 2^32, log files
    < 2^32 bytes, send timestamps non-zero and never going backwards): in every reachable state a maintenance pass
@@ -88,3 +94,4 @@ Print Assumptions C14_size_retention_partial.
 Print Assumptions C14_retention_history.
 Print Assumptions C14_retention_nonvacuous.
 Print Assumptions C14_refinement.
+Print Assumptions C14_pass_survivors_untouched.
